@@ -49,6 +49,10 @@ CHECKS = {
  "C15": ("exploration", "property-based round-trip and differential testing of every codec/level against reference codecs (own inflate/snappy/CRC-32, Python zlib/bz2/lzma); enumeration of all levels and of the output limit boundary",
          "Every codec x every valid level on fixed payloads; generated payloads x random codec/level: round trip, reference decompressor reads the library's output, library reads reference streams, snappy CRC trailer; hostile input never exceeds the limit; L-1/L accepted, L+1/8L refused.",
          "Python's zlib/bz2/lzma and the harness's own inflate/snappy are the references; zstandard has none here; allocation limit fixed at 1 MiB in the check's process.", "DESIGN.md §4 C15"),
+
+ "C20": ("exploration", "property-based testing over generated schema sets with exhaustive permutation enumeration and repeated runs; reference resolvability predicate and cross-ordering equality/codec oracles",
+         "Generated sets of mutually referencing named schemas are parsed under every permutation, several times each (fresh hash seed per call): outcome must equal the reference predicate, results must be identical across orderings and runs, and values must cross orderings.",
+         "The reference predicate comes from the harness's own schema reader; the hash-seed dependent known defect is excluded from the main campaign by construction.", "DESIGN.md §4 C20"),
 }
 NOT_YET = {}
 
